@@ -1,3 +1,4 @@
+import Pocket.Lemmas.FromSourceKind
 import Pocket.Lemmas.StoreRead
 import Pocket.Lemmas.Vanish
 /-
@@ -90,5 +91,10 @@ theorem ephemeral_never_live (s : Store) (e : EventRec) (he : isEphemeral e.kind
     simp only [hr, hpre, Bool.false_eq_true, if_false, h5]
   · unfold commitPlain txnLive
     simp only [he, if_true, hpre]
+
+/-! ### tie to the source text: what /repo says now (translated on every run by `lib/srcfacts.py`) is what the model says -/
+
+/-- "ephemeral" is what `Kind::is_ephemeral` says today -/
+theorem ephemeral_from_source (k : Nat) : Src.kindIsEphemeral k = isEphemeral k := (kind_predicates_from_source k).2.1
 
 end Pocket.C18
